@@ -277,8 +277,13 @@ func RunC10(env *sim.Env) {
 	}
 	// one run in four calls Execute without variables (what the templates need comes from Set globals)
 	nilVars := t.Choose(4) == 3
+	emptyVars := false
 	if nilVars {
 		env.Stat("probe:execute_with_nil_variables", 1)
+		// half of those pass an empty map, not nil: nothing to copy, and still the caller's
+		if emptyVars = t.Choose(2) == 1; emptyVars {
+			env.Stat("probe:execute_with_an_empty_non_nil_VarMap", 1)
+		}
 	}
 	// choose the failing templates
 	nFail := t.Range(1, 2)
@@ -289,7 +294,7 @@ func RunC10(env *sim.Env) {
 			d = data2
 		}
 		stepsBefore := Steps()
-		base := c.aloneRun(Call{Tmpl: m, Data: d, NilVars: nilVars})
+		base := c.aloneRun(Call{Tmpl: m, Data: d, NilVars: nilVars, EmptyVars: emptyVars})
 		costBase := Steps() - stepsBefore
 		nProbe, nWrite := base.Probes.Calls, base.W.Writes
 		if nProbe > 2000 || nWrite > 5000 || costBase > MaxStepsPerExecution {
@@ -310,7 +315,7 @@ func RunC10(env *sim.Env) {
 			// second-level faults: calls that only happen (or still happen) after the first failure,
 			// e.g. inside the catch body it led to - the catch body fails too
 			if nDouble < 8 {
-				o1 := c.aloneRun(Call{Tmpl: m, Data: d, FaultProbe: k, NilVars: nilVars})
+				o1 := c.aloneRun(Call{Tmpl: m, Data: d, FaultProbe: k, NilVars: nilVars, EmptyVars: emptyVars})
 				if n1 := o1.Probes.Calls; n1 > k {
 					fps = append(fps, fp{probe: k, probe2: k + 1})
 					nDouble++
@@ -338,19 +343,19 @@ func RunC10(env *sim.Env) {
 		}
 		env.Stat("counters:fault_points", int64(len(fps)))
 		// fault-free first (residue after successful executions)
-		exec(Call{Tmpl: m, Data: d, NilVars: nilVars})
+		exec(Call{Tmpl: m, Data: d, NilVars: nilVars, EmptyVars: emptyVars})
 		doFlood()
 		if fi == 0 {
 			for _, follow := range targets {
-				exec(Call{Tmpl: swallowPath, Data: d, NilVars: nilVars})
-				exec(Call{Tmpl: follow, Data: data2, NilVars: nilVars})
+				exec(Call{Tmpl: swallowPath, Data: d, NilVars: nilVars, EmptyVars: emptyVars})
+				exec(Call{Tmpl: follow, Data: data2, NilVars: nilVars, EmptyVars: emptyVars})
 			}
 			env.Stat("probe:successful_execution_that_swallowed_a_failure_below_a_yield", 1)
 		}
 		for _, f := range fps {
 			for _, follow := range targets {
 				before := pools.RtReusedAfterFail
-				exec(Call{Tmpl: m, Data: d, FaultProbe: f.probe, FaultProbe2: f.probe2, FaultWrite: f.write, FaultKind: f.kind, NilVars: nilVars})
+				exec(Call{Tmpl: m, Data: d, FaultProbe: f.probe, FaultProbe2: f.probe2, FaultWrite: f.write, FaultKind: f.kind, NilVars: nilVars, EmptyVars: emptyVars})
 				fd := d
 				if follow != m && t.Choose(2) == 1 {
 					fd = data2
@@ -360,7 +365,7 @@ func RunC10(env *sim.Env) {
 					fcfg = 1
 					env.Stat("probe:follow_up_on_another_set", 1)
 				}
-				exec(Call{Tmpl: follow, Data: fd, SetCfg: fcfg, NilVars: nilVars})
+				exec(Call{Tmpl: follow, Data: fd, SetCfg: fcfg, NilVars: nilVars, EmptyVars: emptyVars})
 				if pools.RtReusedAfterFail > before {
 					failedReuse++
 				}
@@ -378,11 +383,11 @@ func RunC10(env *sim.Env) {
 			savedPolicy := pools.Policy
 			pools.Policy = simrt.PoolLIFO
 			for i := 0; i < reps; i++ {
-				exec(Call{Tmpl: m, Data: d, FaultProbe: f.probe, FaultProbe2: f.probe2, FaultWrite: f.write, FaultKind: f.kind, NilVars: nilVars})
+				exec(Call{Tmpl: m, Data: d, FaultProbe: f.probe, FaultProbe2: f.probe2, FaultWrite: f.write, FaultKind: f.kind, NilVars: nilVars, EmptyVars: emptyVars})
 			}
 			env.Stat("probe:same_failure_repeated_20_to_1100_times", 1)
 			for _, follow := range targets {
-				exec(Call{Tmpl: follow, Data: d, NilVars: nilVars})
+				exec(Call{Tmpl: follow, Data: d, NilVars: nilVars, EmptyVars: emptyVars})
 			}
 			pools.Policy = savedPolicy
 		}
